@@ -10,6 +10,7 @@ from collections import defaultdict, deque
 CRATES = ["oq3_lexer", "oq3_parser", "oq3_syntax", "oq3_source_file", "oq3_semantics"]
 
 _gen_re = re.compile(r"::<[^<>]*>")
+_lt_re = re.compile(r"(?:::)?<'[A-Za-z_0-9]+(?:, ?'[A-Za-z_0-9]+)*>")
 
 
 def norm(path):
@@ -17,7 +18,7 @@ def norm(path):
     if path is None:
         return None
     prev = None
-    p = path
+    p = _lt_re.sub("", path)
     while prev != p:
         prev = p
         p = _gen_re.sub("", p)
